@@ -132,3 +132,74 @@ for skips in (0, 1, 2):
               "(';' and ':' colour forms); result and consumed count; loop bound %d proved by the unwinding assertion" % (skips, skips + 1),
          bounds="6 parameters with <= 6 sub-parameters each, all u16 values", mem=10,
          optional_covers=["38;2;r;g;b list form"] if skips == 2 else [])
+
+# ----------------------------------------------------------------------------- terminal: operations that touch no cell
+def tcfg(cols, rows, **kw):
+    """Rust expression for a TCfg"""
+    f = dict(sb=0, limit="None", alt=0, crow="SYM", ccol="SYM", top="SYM", bottom="SYM", parked_rows=0, parked_sb=0,
+             tabs_k="SYM", fill="Fill::Sym")
+    f.update(kw)
+    return ("TCfg { cols: %d, rows: %d, sb: %s, limit: %s, alt: %s, crow: %s, ccol: %s, top: %s, bottom: %s, "
+            "parked_rows: %s, parked_sb: %s, tabs_k: %s, fill: %s }" % (
+                cols, rows, f["sb"], f["limit"], f["alt"], f["crow"], f["ccol"], f["top"], f["bottom"],
+                f["parked_rows"], f["parked_sb"], f["tabs_k"], f["fill"]))
+
+
+def geo_desc(cols, rows, **kw):
+    alt = {0: "primary", 1: "alternate", 2: "either screen"}[kw.get("alt", 0)]
+    return "%dx%d (cols x rows), %s scrollback line(s), limit %s, %s active, cursor row %s, col %s, margins %s" % (
+        cols, rows, kw.get("sb", 0), kw.get("limit", "None"), alt, kw.get("crow", "any"), kw.get("ccol", "any"),
+        "any valid pair" if kw.get("top", "SYM") == "SYM" else "(%s,%s)" % (kw.get("top"), kw.get("bottom")))
+
+
+CURSOR_OPS = ["Bs", "Cr", "Cuu", "Cud", "Cuf", "Cub", "Cnl", "Cpl", "Cha", "Cup", "Vpa", "Vpr",
+              "LfOffMargin", "NelOffMargin", "RiOffMargin", "Decstbm", "OriginSet", "OriginReset"]
+TAB_MOVE_OPS = ["Ht", "Cht", "Cbt"]
+TAB_EDIT_OPS = ["Hts", "CtcSet", "CtcClearCol", "CtcClearAll", "TbcCol", "TbcAll"]
+MODE_OPS = ["So", "Si", "Gzd4", "G1d4", "Sm", "Rm", "DecsetMisc", "DecrstMisc", "Ed3", "XtwinopsOff"]
+SMALL_OPT = ["origin mode with a top margin", "start below the region", "start above the region"]
+
+
+def nocell(op, cols, rows, props, tabs_k="SYM", alt=2, sb=1, suffix="", mem=8, optional=(), geo=None):
+    kw = dict(sb=sb, alt=alt, tabs_k=tabs_k, limit="Some(1)")
+    if geo:
+        kw.update(crow=geo[0], top=geo[1], bottom=geo[2])
+        suffix += "_r%d_m%d%d" % geo
+    k = 0 if tabs_k == "SYM" else int(tabs_k)
+    inst("nc_%s__%dx%d%s" % (op.lower(), cols, rows, suffix), "terminal",
+         "t_nocell(%s, NoCellOp::%s)" % (tcfg(cols, rows, **kw), op), max(cols, rows + sb, k) + 3, props, mem=mem,
+         desc="execute(%s) from any InvT state: exact cursor/mode post-condition, no cell / mark / other state changes, InvT preserved" % op,
+         bounds=geo_desc(cols, rows, **kw) + ("; %s tab stops" % tabs_k if tabs_k != "SYM" else "") + "; all u16 parameters",
+         optional_covers=list(optional))
+
+
+MARGIN_OPS = {"LfOffMargin": "bottom", "NelOffMargin": "bottom", "RiOffMargin": "top"}
+for op in CURSOR_OPS:
+    if op in MARGIN_OPS:
+        # these reach the scrolling code when on the margin: cursor row and margins are constants of the
+        # instance (all off-margin combinations of a 3-row screen); the on-margin cases are in the scroll family
+        for (top, bottom) in ((0, 1), (0, 2), (1, 2)):
+            for row in (0, 1, 2):
+                if row == (bottom if MARGIN_OPS[op] == "bottom" else top):
+                    continue
+                quick = (row, top, bottom) in ((2, 1, 2), (0, 1, 2), (2, 0, 1), (1, 0, 2))
+                nocell(op, 4, 3, {"C05": Q if quick else T, "C02": T, "C01": T}, geo=(row, top, bottom), optional=SMALL_OPT)
+        nocell(op, 1, 1, {"C05": T}, geo=(0, 0, 0), optional=SMALL_OPT + ["missing / zero parameter", "parameter 65535"]) if False else None
+        continue
+    nocell(op, 4, 3, {"C05": Q, "C02": T, "C17": T, "C16": T, "C01": T})
+    nocell(op, 1, 1, {"C05": Q if op in ("Cuu", "Cup", "Cub", "Decstbm") else T, "C01": Q if op in ("Cup", "Decstbm", "Cha") else T}, optional=SMALL_OPT)
+    nocell(op, 5, 5, {"C05": T, "C02": T}, sb=0, alt=0)
+for op in TAB_MOVE_OPS:
+    nocell(op, 6, 2, {"C05": Q, "C18": Q, "C02": T, "C01": T}, tabs_k="2", optional=SMALL_OPT)
+    nocell(op, 9, 2, {"C05": T, "C18": T}, tabs_k="SYM", suffix="_default", optional=SMALL_OPT)
+    nocell(op, 6, 2, {"C05": T, "C18": T}, tabs_k="4", suffix="_k4", optional=SMALL_OPT)
+for op in TAB_EDIT_OPS:
+    nocell(op, 6, 2, {"C18": Q, "C02": T, "C01": T}, tabs_k="2", optional=SMALL_OPT)
+    nocell(op, 6, 2, {"C18": T}, tabs_k="0", suffix="_k0", optional=SMALL_OPT)
+for op in MODE_OPS:
+    props = {"C02": T, "C17": T, "C01": T}
+    if op in ("So", "Si", "Gzd4", "G1d4", "Sm", "Rm", "DecsetMisc", "DecrstMisc"):
+        props["C04"] = Q if op in ("So", "Gzd4", "Sm", "DecrstMisc") else T
+    if op in ("Ed3", "XtwinopsOff"):
+        props["C20"] = Q
+    nocell(op, 3, 3, props)
